@@ -613,3 +613,49 @@ def link_table_snapshot(ctx, res):
                    f"walk raises RuntimeError, the remaining partners are "
                    f"skipped and the lock entry is never removed")
     res.floor(2)
+
+
+# ---------------------------------------------------------------------------
+# C20.list-kind-resolved: whether the `_items` handlers are installed is
+# decided by `_is_list_trait` on both ends.  The kind that matters is that of
+# the trait which finally validates and stores the value, i.e. after
+# delegation has been resolved (`base_trait`): `trait()` of a DelegatesTo
+# attribute is the deferring trait, whose handler is not a List.
+
+@rule("C20.list-kind-resolved", ["C20"],
+      "sync_trait decides on installing the list-items handlers from the "
+      "delegation-resolved trait (base_trait) of both ends")
+def list_kind_resolved(ctx, res):
+    from ..pyfacts import expand_locals
+    repo = get_pyrepo(ctx)
+    HTREL = "traits/has_traits.py"
+    mod = repo.module(HTREL)
+    fn = repo.inlined(HTREL, "HasTraits._is_list_trait")
+    res.instance("_is_list_trait", mod.loc(fn))
+    srcs = []
+    for a in ast.walk(fn):
+        if isinstance(a, ast.Attribute) and a.attr == "handler" \
+                and isinstance(a.ctx, ast.Load):
+            srcs.append(expand_locals(fn, a.value))
+    if not srcs:
+        raise AnalysisError("_is_list_trait: handler read not found")
+    okk = all(isinstance(v, ast.Call) and isinstance(v.func, ast.Attribute)
+              and v.func.attr == "base_trait" for v in srcs)
+    res.oblige(okk, "_is_list_trait:resolved", mod.loc(fn),
+               f"the list kind is read from `{norm(srcs[0])[:60]}`: for a "
+               f"delegated list attribute that is the deferring trait, the "
+               f"items handlers are not installed and in-place mutations do "
+               f"not propagate")
+    st = repo.inlined(HTREL, "HasTraits.sync_trait")
+    ps = [a.arg for a in st.args.args]
+    calls = [c for c in ast.walk(st) if isinstance(c, ast.Call)
+             and isinstance(c.func, ast.Attribute)
+             and c.func.attr in ("_is_list_trait", "base_trait")
+             and norm(c.func.value) in (ps[0], ps[2])]
+    ends = {norm(c.func.value) for c in calls}
+    res.instance("sync_trait:is_list", mod.loc(st), ends=sorted(ends))
+    res.oblige(ends == {ps[0], ps[2]}, "sync_trait:both-ends", mod.loc(st),
+               f"the list kind is tested on {sorted(ends)} only; both "
+               f"`{ps[0]}` and `{ps[2]}` must be list traits for item-wise "
+               f"propagation")
+    res.floor(2)
